@@ -17,6 +17,20 @@ CHECKS = {
              "Overlap.construct_array_contraction of /repo on every run. The 1e-8 accuracy clause is decided on the "
              "generated inputs only.",
         design="5 C01", technique="Coq proof (induction over the recursion) + model/implementation correspondence"),
+    "C15": dict(
+        text="Coq theorems, for all alpha, beta, every symmetric density matrix, any number of basis functions, over "
+             "any commutative ring with three derivations (symbols G(o1,o2) = sum_ab P_ab d^o1 phi_a d^o2 phi_b, formal "
+             "total derivative proved to be the derivative): the documented stress tensor is symmetric and its two "
+             "displayed forms agree; the documented Ehrenfest force is minus the divergence of the documented stress "
+             "tensor; the documented Ehrenfest Hessian is the Jacobian of that force; symmetric=True is the average "
+             "with the transpose; at alpha in {0,1/2,1} / beta=0 the skipped term has coefficient 0. On every run a "
+             "trace translator executes the current stress_tensor.py + density.py on symbolic stand-ins and Coq "
+             "re-proves by computation that each of the 240 traced output components (8 parameter cases x 30) is the "
+             "documented formula. Numerically the three public functions are compared with the documented formulas "
+             "(dumped from Coq) evaluated on independently computed basis-function derivatives, tolerance 1e-8 x sum "
+             "of absolute terms, on generated inputs only.",
+        design="5 C15", technique="Coq proof (decision procedure on formal jets, proved sound) + trace translator "
+                                  "(source -> Gen/StressTrace.v, re-proved every run) + numeric correspondence"),
 }
 NOT_YET = {}
 
